@@ -187,10 +187,10 @@ def run(F, R, tier):
 
     # ------------------------------------------------------------------ R6 CoreDocument::verify_jws
     r6 = R.rule("C03-R6", "T2+T3+T6+T4", "verify_jws: nonce equality dominates; method query = options.method_id or protected kid; resolve_method(query, options.method_scope) on self; verify(verifier, that key) result returned; DIDUrlQuery::matches table")
-    verify_jws_rules(F, r6)
+    verify_jws_rules(F, r6, tier)
 
 
-def verify_jws_rules(F, r6):
+def verify_jws_rules(F, r6, tier="quick"):
     vfn = CORE + "::verify_jws"
     if r6.anchor(F.hir(vfn), vfn):
         OPQ = r"Decoder::decode_compact_serialization$|JwsValidationItem::verify$|CoreDocument::resolve_method$|MethodData::(try_)?public_key_jwk$|VerificationMethod::data$"
@@ -247,4 +247,7 @@ def verify_jws_rules(F, r6):
     mfn = Q + "::matches"
     if r6.anchor(F.hir(mfn), mfn):
         matches_rule(F, r6, mfn)
-    r6.floor(5)
+    # "within the configured scope" also needs resolve_method itself to map every scope to its own collection and every query to
+    # the entry it names (C04-R5, C04-R7)
+    L.depends_on(r6, F, tier, ["C04-R5", "C04-R7"], "resolve_method(query, scope) looks in the collection of that scope and matches by full id")
+    r6.floor(7)
